@@ -289,7 +289,8 @@ def main():
         __import__(mod)
     os.makedirs(GEN, exist_ok=True)
     status = {}
-    for name, fn in GENERATORS.items():
+    import gen_coq as _self   # the generators register themselves on the imported module, not on __main__
+    for name, fn in _self.GENERATORS.items():
         path = os.path.join(GEN, name)
         try:
             text = fn()
